@@ -1,12 +1,12 @@
 """C15 — non-converging fixpoint iteration ends in a bounded panic."""
 from checks_path import *  # noqa
-from cycle_common import run_cycle
+from cycle_common import run_cycle, compare_cycle_rev
 from edges_common import run_edges
 from seq_common import replay_seq
 
 PROPERTY = 'C15'
 GEN = ['Stamp', 'LogicCycle']
-PROPS = ['SalsaVerif.Props.C15', 'SalsaVerif.Props.GenLogicCycle']
+PROPS = ['SalsaVerif.Props.C15', 'SalsaVerif.Props.GenLogicCycle', 'SalsaVerif.Props.C15Rev']
 KNOWN = ('fb-participant-after-revalidated-head', 'fix-participant-stale-after-revalidation')
 EXPLANATION = ('Theorems about IterationStamp (translated from src/cycle.rs on every run: increment adds exactly one to the iteration byte, '
                'never carries into the cancellation byte, and refuses at MAX_ITERATIONS = 200) and about the head loop of the Lean cycle '
@@ -20,7 +20,7 @@ ASSUMPTIONS = ['for non-monotone programs the value (if any) depends on evaluati
 
 def ties(ctx):
     n = 8000 if ctx.tier == "quick" else 150000
-    return [run_edges(ctx, set('SI')), run_cycle(ctx, n, known_keys=KNOWN, flavours='3,0', seed_offset=4)]
+    return [run_edges(ctx, set('SI')), compare_cycle_rev(ctx, run_cycle(ctx, n, known_keys=KNOWN, flavours='3,0', seed_offset=4), 'cycle')]
 
 def search(ctx, reason):
     t = run_cycle(ctx, 200000, known_keys=KNOWN, flavours='3,0', seed_offset=99, tag='search-cycle')
